@@ -92,6 +92,21 @@ fn convert_any(path: &str, text: &str) -> Result<Model, String> {
     }
 }
 
+/// outcome of a conversion as a comparable text: "ok:<digest of the JSON>" or "err"
+fn outcome_digest(r: &Result<Model, String>) -> String {
+    match r {
+        Ok(m) => format!("ok:{:016x}", crate::engine::fnv64(m.as_json().unwrap_or_default().as_bytes())),
+        Err(_) => "err".to_string(),
+    }
+}
+
+/// worker side: converts one project text in a process that has converted nothing else
+pub fn worker(_sub: &str, v: serde_json::Value) -> serde_json::Value {
+    let path = v["path"].as_str().unwrap_or("").to_string();
+    let text = v["text"].as_str().unwrap_or("").to_string();
+    json!(outcome_digest(&convert_any(&path, &text)))
+}
+
 fn check_real(h: &CaseH, path: &String) -> Verdict {
     let text = read_project(path);
     let what = path.trim_start_matches("/repo/hulc_tests/tests/");
@@ -289,7 +304,31 @@ fn check_edit(h: &CaseH, c: &EditCase) -> Verdict {
     let what = format!("{} with definition {:?} ({}) {}", if c.bld.is_some() { "generated project" } else { c.file.trim_start_matches("/repo/hulc_tests/tests/") }, name, ty, how);
     h.class(&format!("edit/{}/{}", if c.respell == 1 { "respell" } else if c.delete { "delete" } else { "rename" }, ty));
     h.nontrivial(fp(&(c.file.clone(), line, c.delete, c.respell)));
-    match catch(|| convert_any(&path, &edited)) {
+    // the verdict on a broken project must not depend on what the process converted before: here the intact
+    // project is converted first (a session that opens the good file, then the damaged one); a process that has
+    // converted nothing must give the same outcome
+    let _ = catch(|| convert_any(&path, &text));
+    let here = catch(|| convert_any(&path, &edited));
+    if let Ok(r) = &here {
+        crate::engine::worker_reset("C02.convert");
+        match crate::engine::worker_call("C02.convert", &json!({"path": path, "text": edited}), std::time::Duration::from_secs(120)) {
+            crate::engine::WorkerOut::Ok(v) => {
+                let fresh = v.as_str().unwrap_or("").to_string();
+                let mine = outcome_digest(r);
+                h.class("fresh-process-compared");
+                if fresh != mine {
+                    return Verdict::fail(
+                        "C02:edit:outcome-depends-on-history",
+                        format!("{}: converted after the intact project the outcome is {}, in a process that has converted nothing it is {}", what, mine.split(':').next().unwrap_or(""), fresh.split(':').next().unwrap_or("")),
+                    );
+                }
+            }
+            crate::engine::WorkerOut::Panic(p) => return Verdict::from_panic("C02:convert-edited", &p),
+            _ => {}
+        }
+        crate::engine::worker_reset("C02.convert");
+    }
+    match here {
         Ok(Err(e)) => {
             h.class("outcome/error");
             h.sample(|| json!({"case": what, "error": e.lines().next().unwrap_or("")}));
@@ -340,7 +379,7 @@ fn check_edit(h: &CaseH, c: &EditCase) -> Verdict {
 
 pub fn run(args: &Args) -> ! {
     let ctx = Ctx::new("C02", "exploration", args);
-    ctx.rule("real: all shipped .ctehexml (parse_with_catalog) and legacy .cte (Data::new + catalogue) projects; generated: typed buildings printed to .ctehexml (half with a systems section transplanted from a shipped project); edits: each of those with ONE definition that is referenced elsewhere renamed or removed, or consistently respelt (definition and every reference) with two consecutive blanks in the name (material, layers, construction, glass, frame, gap, polygon, floor, space, wall, day/week/year schedule, space/system conditions; quick: seeded slice, thorough: every referenced definition of every real project). Oracle: closure computed by the harness (unique ids per collection, every reference resolves, no nil id, bemodel::check empty), for generated projects every link the source declares is present in the model, for edits: Err, or Ok and closed and (broken references) no reference to the edited definition silently dropped. Non-trivial: project with windows and schedules; edit of a definition that is actually referenced.");
+    ctx.rule("real: all shipped .ctehexml (parse_with_catalog) and legacy .cte (Data::new + catalogue) projects; generated: typed buildings printed to .ctehexml (half with a systems section transplanted from a shipped project); edits: each of those with ONE definition that is referenced elsewhere renamed or removed, or consistently respelt (definition and every reference) with two consecutive blanks in the name (material, layers, construction, glass, frame, gap, polygon, floor, space, wall, day/week/year schedule, space/system conditions; quick: seeded slice, thorough: every referenced definition of every real project). Oracle: closure computed by the harness (unique ids per collection, every reference resolves, no nil id, bemodel::check empty), for generated projects every link the source declares is present in the model, for edits: Err, or Ok and closed and (broken references) no reference to the edited definition silently dropped; and the outcome (error, or the model's JSON) of the edited project converted right after its intact original equals the outcome in a fresh process that has converted nothing. Non-trivial: project with windows and schedules; edit of a definition that is actually referenced.");
     ctx.assume("names are unique per kind inside one project (HULC guarantees it)");
     ctx.replay_regressions(replay_one);
     let files = real_files();
